@@ -27,7 +27,14 @@ from zoneinfo import ZoneInfo
 
 import dateutil.rrule
 from icalendar.cal import Calendar, Component, component_factory
-from icalendar.prop import TypesFactory, vCategory, vDatetime, vDDDTypes, vText
+from icalendar.prop import (
+    TypesFactory,
+    vCategory,
+    vDatetime,
+    vDDDTypes,
+    vPeriod,
+    vText,
+)
 
 from xandikos.store import File, Filter, InvalidFileContents
 
@@ -439,9 +446,16 @@ class ComponentTimeRangeMatcher:
                 continue
             for value in values:
                 if value and not isinstance(value, bool):
-                    vs.setdefault(field, []).append(
-                        vDDDTypes(vDDDTypes.from_ical(value.decode("utf-8")))
-                    )
+                    text = value.decode("utf-8")
+                    if field == "FREEBUSY":
+                        # apply_time_range_vfreebusy() wants periods
+                        vs.setdefault(field, []).append(
+                            vPeriod(vPeriod.from_ical(text))
+                        )
+                    else:
+                        vs.setdefault(field, []).append(
+                            vDDDTypes(vDDDTypes.from_ical(text))
+                        )
 
         try:
             component_handler = self.component_handlers[self.comp]
@@ -452,7 +466,8 @@ class ComponentTimeRangeMatcher:
             self.start,
             self.end,
             # TODO(jelmer): What to do if there is more than one value?
-            {k: vs[0] for (k, vs) in vs.items()},
+            # (FREEBUSY is a list of periods; every one of them counts.)
+            {k: (vs if k == "FREEBUSY" else vs[0]) for (k, vs) in vs.items()},
             tzify,
         )
 
